@@ -41,6 +41,10 @@ type ReplicaConfig struct {
 	PruneKeep   uint64 `json:"prune_keep"` // 0 = no pruning
 	MinGasPrice uint64 `json:"min_gas_price"`
 	ProbeApps   bool   `json:"probe_apps"`
+	// Observer marks the extra replica that always executes blocks on the plain-delivery path
+	// (one DeliverTx call per transaction) so that oracles can observe the in-progress block
+	// state before and after every transaction. It never proposes.
+	Observer bool `json:"observer,omitempty"`
 }
 
 // Replica is one node: real application server + real CometBFT execution machinery.
@@ -117,6 +121,9 @@ type interposer struct {
 	// lastPanic is set when an ABCI call panicked (the panic is re-raised to CometBFT).
 	lastPanic interface{}
 	lastStack string
+	// lastDeliver is the response of the most recent DeliverTx call.
+	lastDeliver abcitypes.ResponseDeliverTx
+	lastTx      []byte
 }
 
 func (i *interposer) wrap(call string, f func()) {
@@ -138,7 +145,8 @@ func (i *interposer) BeginBlock(r abcitypes.RequestBeginBlock) (res abcitypes.Re
 	return
 }
 func (i *interposer) DeliverTx(r abcitypes.RequestDeliverTx) (res abcitypes.ResponseDeliverTx) {
-	i.wrap("DeliverTx", func() { res = i.Application.DeliverTx(r) })
+	i.lastTx = r.Tx
+	i.wrap("DeliverTx", func() { res = i.Application.DeliverTx(r); i.lastDeliver = res })
 	return
 }
 func (i *interposer) EndBlock(r abcitypes.RequestEndBlock) (res abcitypes.ResponseEndBlock) {
